@@ -17,9 +17,10 @@
 -/
 import Gedcom.Model.Node
 import Gedcom.Model.QuerySyntax
+import Gedcom.Model.DateParse
+import Gedcom.Model.Resolve
 import Gedcom.Generated.Tags
 namespace Gedcom.Q
-open Gedcom
 
 /-! ### Outcomes -/
 
@@ -87,6 +88,7 @@ def filterO {α : Type} (f : α → Outcome Bool) : List α → Outcome (List α
 inductive Val where
   | nil                                         -- the nil interface
   | str (s : Str) | int (i : Int) | bool (b : Bool)
+  | float (num : Int) (den : Nat)               -- a float64, as the exact fraction num/den the Go code rounds
   | someBool                                    -- a bool the model does not determine (see `applyOp`)
   | doc (i : Nat)                               -- *gedcom.Document, index into the documents
   | node (d : Nat) (n : Node)                   -- non-nil pointer to a node of document d
@@ -107,6 +109,7 @@ def Node.kind (n : Node) : String := kindOfTag n.tag
 def Val.ty : Val → Option Ty
   | .nil => none
   | .str _ => some .str | .int _ => some .int | .bool _ => some .bool | .someBool => some .bool
+  | .float _ _ => some .float
   | .doc _ => some .doc
   | .node _ n => some (.ptr (Node.kind n))
   | .nilNode k => some (.ptr k)
@@ -119,19 +122,8 @@ def mkNodes (d : Nat) (ns : List Node) : Val := .slice "Nodes" .nodeI ns.isEmpty
 
 /-! ### Small string functions of Go that the accessors use -/
 
-def isSpaceTrim (c : UInt8) : Bool := c == 9 || c == 10 || c == 11 || c == 12 || c == 13 || c == 32
-
-/-- strings.TrimSpace on ASCII white space (documents of the correspondence stay in that domain) -/
-def trimSpace (s : Str) : Str := ((s.dropWhile isSpaceTrim).reverse.dropWhile isSpaceTrim).reverse
-
-/-- strings.Replace(s, "  ", " ", -1): non-overlapping, left to right -/
-def replDouble : Str → Str
-  | 32 :: 32 :: rest => 32 :: replDouble rest
-  | c :: rest => c :: replDouble rest
-  | [] => []
-
-/-- gedcom.CleanSpace: two replacement passes, then trim (as the code is, not "collapse runs") -/
-def cleanSpace (s : Str) : Str := trimSpace (replDouble (replDouble s))
+/- `strings.TrimSpace` and `CleanSpace` are the shared models of DateParse.lean
+   (`Gedcom.trimSpace`, Unicode-aware; `Gedcom.cleanSpace`, every run of spaces collapsed). -/
 
 def lowerB (c : UInt8) : UInt8 := if 65 ≤ c && c ≤ 90 then c + 32 else c
 def toLowerAscii (s : Str) : Str := s.map lowerB
@@ -178,6 +170,147 @@ def nameString (n : Node) : Str :=
   cleanSpace (firstChildValue n "TITL" ++ [32] ++ firstChildValue n "NPFX" ++ [32] ++ nameGiven n ++ [32]
     ++ firstChildValue n "SPFX" ++ [32] ++ nameSurname n ++ [32] ++ nameSuffix n)
 
+/-! ### events, dates, places, relations (shared models: DateParse.lean, Resolve.lean) -/
+
+def kidsWithTag (n : Node) (tag : String) : List Node := n.kids.filter (fun k => k.tag == ascii tag)
+
+/-- `Dates(nodes...)`: the DATE children of the given nodes, in order -/
+def shallowDates (ns : List Node) : List Node := ns.flatMap (fun n => kidsWithTag n "DATE")
+def shallowPlaces (ns : List Node) : List Node := ns.flatMap (fun n => kidsWithTag n "PLAC")
+
+/-- `DateNodes.Minimum()`: the first date whose start has the least `Years()` -/
+def minimumDate : List Node → Option Node
+  | [] => none
+  | d :: ds => some (ds.foldl (fun m x =>
+      if (parseDateRange x.value).start.yearsLt (parseDateRange m.value).start then x else m) d)
+
+/-- `DateRange.Years()` = (start.Years() + end.Years()) / 2, as an exact fraction -/
+def rangeYears (r : DateRange) : Int × Nat :=
+  let a := r.start.yearsFrac
+  let b := r.end_.yearsFrac
+  (a.1 * b.2 + b.1 * a.2, (2 * a.2 * b.2).toNat)
+
+def dateNodeYears (d : Node) : Int × Nat := rangeYears (parseDateRange d.value)
+
+/-- `IndividualNode.EstimatedBirthDate`: the minimum birth date, else the minimum (LDS) baptism date -/
+def estimatedBirthDate (n : Node) : Option Node :=
+  match minimumDate (shallowDates (kidsWithTag n "BIRT")) with
+  | some d => some d
+  | none => minimumDate (shallowDates (kidsWithTag n "BAPM" ++ kidsWithTag n "BAPL"))
+
+/-- `birthYear == 0 || now - birthYear <= maxAge` with the birth year as the fraction num/den -/
+def livingTest (now maxAge : Nat) (by_ : Int × Nat) : Bool :=
+  by_.1 == 0 || decide ((now : Int) * by_.2 - by_.1 ≤ (maxAge : Int) * by_.2)
+
+/-- the birth year `IsLiving` uses: `Years(EstimatedBirthDate())`, 0 without a date -/
+def birthYears (n : Node) : Int × Nat :=
+  match estimatedBirthDate n with
+  | some d => dateNodeYears d
+  | none => (0, 1)
+
+/-- `IndividualNode.IsLiving` with the current year as input: no death event, and — unless
+    MaxLivingAge is 0 or no birth year is known — `now - birthYear ≤ MaxLivingAge` -/
+def individualIsLiving (now : Nat) (n : Node) : Bool :=
+  if !(kidsWithTag n "DEAT").isEmpty then false
+  else if Generated.Query.maxLivingAge == 0 then true
+  else livingTest now Generated.Query.maxLivingAge (birthYears n)
+
+/-- `DateAndPlace(events...)`: the first DATE below the events -/
+def firstEventDate (n : Node) (tag : String) : Option Node := (shallowDates (kidsWithTag n tag)).head?
+
+def validDateText (d : Option Node) : Option Str :=
+  match d with
+  | some x => let r := parseDateRange x.value
+              if r.isValid then some (dateNodeToString r) else none
+  | none => none
+
+/-- `IndividualNode.String`: "Name (b. …, d. …)" with baptism / burial as fall-backs -/
+def individualString (n : Node) : Str :=
+  let nm := match kidsWithTag n "NAME" with | k :: _ => nameString k | [] => []
+  let nm := if nm.isEmpty then ascii "(no name)" else nm
+  let b : List Str := match validDateText (firstEventDate n "BIRT") with
+    | some t => [ascii "b. " ++ t]
+    | none => match validDateText (firstEventDate n "BAPM") with
+      | some t => [ascii "bap. " ++ t]
+      | none => []
+  let d : List Str := match validDateText (firstEventDate n "DEAT") with
+    | some t => [ascii "d. " ++ t]
+    | none => match validDateText (firstEventDate n "BURI") with
+      | some t => [ascii "bur. " ++ t]
+      | none => []
+  match b ++ d with
+  | [] => nm
+  | parts => nm ++ ascii " (" ++ (ascii ", ").intercalate parts ++ ascii ")"
+
+def splitOn (sep : UInt8) (s : Str) : List Str :=
+  s.foldr (fun c acc => if c == sep then [] :: acc else match acc with | h :: t => (c :: h) :: t | [] => [[c]]) [[]]
+
+/-- `PlaceNode.JurisdictionalName`: the FORM child's value if not empty, else the value -/
+def placeJurName (n : Node) : Str :=
+  match kidsWithTag n "FORM" with
+  | f :: _ => if f.value.isEmpty then n.value else f.value
+  | [] => n.value
+
+/-- `PlaceNode.JurisdictionalEntities`: exactly four comma-separated parts, else the whole name -/
+def placeParts (n : Node) : Str × Str × Str × Str :=
+  let j := placeJurName n
+  match splitOn 44 j with
+  | [a, b, c, d] => (trimSpace a, trimSpace b, trimSpace c, trimSpace d)
+  | _ => (trimSpace j, [], [], [])
+
+def isSuffixB (suf s : Str) : Bool := suf.length ≤ s.length && s.drop (s.length - suf.length) == suf
+
+/-- `PlaceNode.Country`: the fourth part, else the first known country the name ends with -/
+def placeCountry (n : Node) : Str :=
+  let c := (placeParts n).2.2.2
+  if !c.isEmpty then c else
+  let cut (b : UInt8) : Bool := b == 44 || b == 46 || b == 32          -- strings.Trim(name, ",. ")
+  let t := ((placeJurName n).dropWhile cut).reverse.dropWhile cut |>.reverse
+  let lower := toLowerAscii t
+  match Generated.Query.countries.find? (fun e => isSuffixB (ascii e.2) lower) with
+  | some e => ascii e.1
+  | none => []
+
+def resFlags : Resolve.Flags := Resolve.generatedFlags
+
+def entVal (d : Nat) (kind : String) : Option Resolve.Ent → Val
+  | some e => .node d e.node
+  | none => .nilNode kind
+
+/-- `HusbandNode/WifeNode.String`: the individual's String, "(unknown)" without one;
+    `ChildNode.String`: the individual's String ("(no name)" for a nil individual) -/
+def roleString (unknown : String) (r : Resolve.Res (Option Resolve.Ent)) : Resolve.Res Str :=
+  match r with
+  | .ok (some e) => .ok (individualString e.node)
+  | .ok none => .ok (ascii unknown)
+  | .panic s => .panic s
+
+def utf8 (s : String) : Str := s.toUTF8.toList
+
+/-- `FamilyNode.String`: "<husband> <symbol> <wife>" -/
+def familyString (doc : Forest) (n : Node) : Resolve.Res Str := do
+  let symbol := if !(kidsWithTag n "DIV").isEmpty then utf8 "⚮" else if !(kidsWithTag n "MARR").isEmpty then utf8 "⚭" else utf8 "—"
+  let h ← match kidsWithTag n "HUSB" with
+    | k :: _ => roleString "(unknown)" (Resolve.roleIndividual resFlags .husband resFlags.husband doc k)
+    | [] => .ok (ascii "(unknown)")
+  let w ← match kidsWithTag n "WIFE" with
+    | k :: _ => roleString "(unknown)" (Resolve.roleIndividual resFlags .wife resFlags.wife doc k)
+    | [] => .ok (ascii "(unknown)")
+  pure (h ++ [32] ++ symbol ++ [32] ++ w)
+
+mutual
+/-- `Encoder.renderNode`: "<level> [@ptr@ ]TAG[ value]\n", then the children one level deeper -/
+def renderNode (lvl : Nat) : Node → Str
+  | .mk t v p ks =>
+    natToDec lvl ++ [32] ++ (if p.isEmpty then [] else [64] ++ p ++ [64, 32]) ++ t ++ (if v.isEmpty then [] else 32 :: v) ++ [10]
+      ++ renderNodes (lvl + 1) ks
+def renderNodes (lvl : Nat) : List Node → Str
+  | [] => []
+  | n :: ns => renderNode lvl n ++ renderNodes lvl ns
+end
+
+def eventKinds : List String := ["BirthNode", "DeathNode", "BaptismNode", "BurialNode", "EventNode", "ResidenceNode"]
+
 /-! ### Reflection tables -/
 
 def methodInfo (recv : String) (m : Str) : Option (Nat × Nat × Ty) :=
@@ -221,8 +354,14 @@ def MenuResult.toOutcome : MenuResult → Outcome Val
   | .val v => .ok v
   | .recovered => .error .methodPanicked
 
+/-- a call into the reference-resolution layer: a panic there is recovered by evaluateAccessor -/
+def ofRes {α} (r : Resolve.Res α) (f : α → Val) : MenuResult :=
+  match r with
+  | .ok a => .val (f a)
+  | .panic _ => .recovered
+
 /-- A modelled niladic method on a receiver; `none`: not in the menu. -/
-def callMenu (docs : List Forest) (recv : String) (m : String) (v : Val) : Option MenuResult :=
+def callMenu (now : Nat) (docs : List Forest) (recv : String) (m : String) (v : Val) : Option MenuResult :=
   match v with
   | .doc i =>
     let f := docs.getD i []
@@ -230,6 +369,7 @@ def callMenu (docs : List Forest) (recv : String) (m : String) (v : Val) : Optio
     | "Individuals" => some (.val (.slice "IndividualNodes" (.ptr "IndividualNode") false ((rootsOfKind f "IndividualNode").map (.node i))))
     | "Families" => some (.val (.slice "FamilyNodes" (.ptr "FamilyNode") false ((rootsOfKind f "FamilyNode").map (.node i))))
     | "Nodes" => some (.val (mkNodes i f))
+    | "String" => some (.val (.str (renderNodes 0 f)))          -- Document.String = GEDCOMString(0), no BOM
     | _ => none
   | .tag t =>
     match m with
@@ -253,7 +393,57 @@ def callMenu (docs : List Forest) (recv : String) (m : String) (v : Val) : Optio
       | "NameNode", "String" => some (.val (.str (nameString n)))
       | "SexNode", "String" =>
         some (.val (.str (if n.value == ascii "M" then ascii "Male" else if n.value == ascii "F" then ascii "Female" else ascii "Unknown")))
-      | "SimpleNode", "String" => some (.val (.str n.value))
+      | "IndividualNode", "Births" =>
+        let es := kidsWithTag n "BIRT"
+        some (.val (.slice "" (.ptr "BirthNode") es.isEmpty (es.map (.node d))))    -- `var nodes []*BirthNode`
+      | "IndividualNode", "Deaths" => some (.val (.slice "" (.ptr "DeathNode") false ((kidsWithTag n "DEAT").map (.node d))))
+      | "IndividualNode", "Baptisms" => some (.val (.slice "" (.ptr "BaptismNode") false ((kidsWithTag n "BAPM").map (.node d))))
+      | "IndividualNode", "Burials" => some (.val (.slice "" (.ptr "BurialNode") false ((kidsWithTag n "BURI").map (.node d))))
+      | "IndividualNode", "Birth" => some (.val (match firstEventDate n "BIRT" with | some x => .node d x | none => .nilNode "DateNode"))
+      | "IndividualNode", "Death" => some (.val (match firstEventDate n "DEAT" with | some x => .node d x | none => .nilNode "DateNode"))
+      | "IndividualNode", "Baptism" => some (.val (match firstEventDate n "BAPM" with | some x => .node d x | none => .nilNode "DateNode"))
+      | "IndividualNode", "Burial" => some (.val (match firstEventDate n "BURI" with | some x => .node d x | none => .nilNode "DateNode"))
+      | "IndividualNode", "Spouses" =>
+        some (ofRes (Resolve.spouses resFlags (docs.getD d []) ⟨0, n⟩)
+          (fun l => .slice "IndividualNodes" (.ptr "IndividualNode") false (l.map (entVal d "IndividualNode"))))
+      | "IndividualNode", "Families" =>
+        some (ofRes (Resolve.familiesOf resFlags (docs.getD d []) ⟨0, n⟩)
+          (fun l => .slice "FamilyNodes" (.ptr "FamilyNode") false (l.map (fun e => .node d e.node))))
+      | "IndividualNode", "Parents" =>
+        some (ofRes (Resolve.parents resFlags (docs.getD d []) ⟨0, n⟩)
+          (fun l => .slice "FamilyNodes" (.ptr "FamilyNode") false (l.map (fun e => .node d e.node))))
+      | "IndividualNode", "IsLiving" => some (.val (.bool (individualIsLiving now n)))
+      | "IndividualNode", "String" => some (.val (.str (individualString n)))
+      | "FamilyNode", "Husband" => some (.val (match kidsWithTag n "HUSB" with | k :: _ => .node d k | [] => .nilNode "HusbandNode"))
+      | "FamilyNode", "Wife" => some (.val (match kidsWithTag n "WIFE" with | k :: _ => .node d k | [] => .nilNode "WifeNode"))
+      | "FamilyNode", "Children" => some (.val (.slice "ChildNodes" (.ptr "ChildNode") false ((kidsWithTag n "CHIL").map (.node d))))
+      | "HusbandNode", "Individual" =>
+        some (ofRes (Resolve.roleIndividual resFlags .husband resFlags.husband (docs.getD d []) n) (entVal d "IndividualNode"))
+      | "WifeNode", "Individual" =>
+        some (ofRes (Resolve.roleIndividual resFlags .wife resFlags.wife (docs.getD d []) n) (entVal d "IndividualNode"))
+      | "ChildNode", "Individual" =>
+        some (ofRes (Resolve.roleIndividual resFlags .child resFlags.child (docs.getD d []) n) (entVal d "IndividualNode"))
+      | "HusbandNode", "String" =>
+        some (ofRes (roleString "(unknown)" (Resolve.roleIndividual resFlags .husband resFlags.husband (docs.getD d []) n)) .str)
+      | "WifeNode", "String" =>
+        some (ofRes (roleString "(unknown)" (Resolve.roleIndividual resFlags .wife resFlags.wife (docs.getD d []) n)) .str)
+      | "ChildNode", "String" =>
+        some (ofRes (roleString "(no name)" (Resolve.roleIndividual resFlags .child resFlags.child (docs.getD d []) n)) .str)
+      | "FamilyNode", "String" => some (ofRes (familyString (docs.getD d []) n) .str)
+      | "DateNode", "Years" => let y := dateNodeYears n; some (.val (.float y.1 y.2))
+      | "DateNode", "String" => some (.val (.str (dateNodeToString (parseDateRange n.value))))
+      | "DateNode", "IsValid" => some (.val (.bool (parseDateRange n.value).isValid))
+      | "PlaceNode", "JurisdictionalName" => some (.val (.str (placeJurName n)))
+      | "PlaceNode", "Name" => some (.val (.str (placeParts n).1))
+      | "PlaceNode", "County" => some (.val (.str (placeParts n).2.1))
+      | "PlaceNode", "State" => some (.val (.str (placeParts n).2.2.1))
+      | "PlaceNode", "Country" => some (.val (.str (placeCountry n)))
+      | k, "Dates" =>
+        if eventKinds.contains k then
+          let ds := kidsWithTag n "DATE"
+          some (.val (.slice "DateNodes" (.ptr "DateNode") ds.isEmpty (ds.map (.node d))))    -- `Dates(node)`: nil until appended
+        else none
+      | k, "String" => if Generated.Query.stringIsValue.contains k then some (.val (.str n.value)) else none
       | _, _ => none
   | .nilNode k =>
     -- a typed nil pointer: the method is found and called; it returns a zero value or
@@ -270,6 +460,27 @@ def callMenu (docs : List Forest) (recv : String) (m : String) (v : Val) : Optio
       | "NameNode", "Surname" => some (.val (.str []))
       | "NameNode", "String" => some (.val (.str []))
       | "SexNode", "String" => some (.val (.str (ascii "Unknown")))
+      | "IndividualNode", "Births" => some (.val (.slice "" (.ptr "BirthNode") true []))
+      | "IndividualNode", "Deaths" => some (.val (.slice "" (.ptr "DeathNode") false []))       -- CastTo of no nodes: empty, not nil
+      | "IndividualNode", "Baptisms" => some (.val (.slice "" (.ptr "BaptismNode") false []))
+      | "IndividualNode", "Burials" => some (.val (.slice "" (.ptr "BurialNode") false []))
+      | "IndividualNode", "Birth" | "IndividualNode", "Death" | "IndividualNode", "Baptism" | "IndividualNode", "Burial" =>
+        some (.val (.nilNode "DateNode"))
+      | "IndividualNode", "Spouses" => some (.val (.slice "IndividualNodes" (.ptr "IndividualNode") true []))
+      | "IndividualNode", "Families" | "IndividualNode", "Parents" => some (.val (.slice "FamilyNodes" (.ptr "FamilyNode") true []))
+      | "IndividualNode", "IsLiving" => some (.val (.bool false))
+      | "IndividualNode", "String" => some (.val (.str (ascii "(no name)")))
+      | "FamilyNode", "Husband" => some (.val (.nilNode "HusbandNode"))
+      | "FamilyNode", "Wife" => some (.val (.nilNode "WifeNode"))
+      | "FamilyNode", "Children" => some (.val (.slice "ChildNodes" (.ptr "ChildNode") true []))
+      | "HusbandNode", "Individual" | "WifeNode", "Individual" | "ChildNode", "Individual" => some (.val (.nilNode "IndividualNode"))
+      | "HusbandNode", "String" | "WifeNode", "String" => some (.val (.str (ascii "(unknown)")))
+      | "ChildNode", "String" => some (.val (.str (ascii "(no name)")))
+      | "FamilyNode", "String" => some (.val (.str (ascii "(unknown) " ++ utf8 "—" ++ ascii " (unknown)")))
+      | "DateNode", "Years" => some (.val (.float 0 1))
+      | "DateNode", "String" => some (.val (.str []))
+      | "DateNode", "IsValid" => some (.val (.bool false))
+      | k', "Dates" => if eventKinds.contains k' then some (.val (.slice "DateNodes" (.ptr "DateNode") true [])) else none
       | _, _ => none
   | _ => none
 
@@ -277,7 +488,7 @@ def strOfAscii? (s : Str) : String := String.ofList (s.map (fun b => Char.ofNat 
 
 /-- `evaluateAccessor` on a non-nil, non-slice input: look the name up as method, then as field;
     a panic of the call is recovered into an error. -/
-def accessSingle (docs : List Forest) (acc : Str) (v : Val) : Outcome Val :=
+def accessSingle (now : Nat) (docs : List Forest) (acc : Str) (v : Val) : Outcome Val :=
   match v.ty with
   | none => .ok .nil
   | some t =>
@@ -293,7 +504,7 @@ def accessSingle (docs : List Forest) (acc : Str) (v : Val) : Outcome Val :=
         if nin > 0 then .error .methodPanicked        -- reflect: Call with too few input arguments
         else if nout == 0 then .error .methodPanicked -- result[0]: index out of range
         else
-          match callMenu docs recv (strOfAscii? acc) v with
+          match callMenu now docs recv (strOfAscii? acc) v with
           | some r => r.toOutcome
           | none => .unsupported "method outside the modelled menu"
       | none =>
@@ -316,26 +527,25 @@ def returnType (elem : Ty) (acc : Str) : Outcome Ty :=
 
 /-- one element of a list under an accessor: the result is `reflect.Append`ed, which panics
     for an untyped nil -/
-def accessElem (docs : List Forest) (acc : Str) (x : Val) : Outcome Val := do
-  let r ← accessSingle docs acc x
+def accessElem (now : Nat) (docs : List Forest) (acc : Str) (x : Val) : Outcome Val := do
+  let r ← accessSingle now docs acc x
   match r with
   | .nil => Outcome.panic .appendNil
   | r => pure r
 
 /-- AccessorExpr.Evaluate -/
-def evalAccessor (docs : List Forest) (q : Str) (v : Val) : Outcome Val :=
+def evalAccessor (now : Nat) (docs : List Forest) (q : Str) (v : Val) : Outcome Val :=
   let acc := q.drop 1
   match v with
   | .nil => .ok .nil
   | .slice _ elem _ vs => do
     let rt ← returnType elem acc
-    let rs ← mapO (accessElem docs acc) vs
+    let rs ← mapO (accessElem now docs acc) vs
     pure (.slice "" rt false rs)
-  | v => accessSingle docs acc v
+  | v => accessSingle now docs acc v
 
 /-! ### `%v`, Atoi, ParseFloat -/
 
-def natToDec (n : Nat) : Str := (Nat.toDigits 10 n).map (fun c => UInt8.ofNat c.toNat)
 def intToDec (i : Int) : Str := if i < 0 then 45 :: natToDec i.natAbs else natToDec i.natAbs
 
 /-- fmt.Sprintf("%v", v) for the values whose rendering the model determines -/
@@ -344,6 +554,14 @@ def fmtV : Val → Option Str
   | .int i => some (intToDec i)
   | .bool b => some (ascii (if b then "true" else "false"))
   | .nil => some (ascii "<nil>")
+  | .float n d =>
+    -- %v of a float64 is its shortest decimal: determined here for integers and halves only
+    if d == 0 then none
+    else if n % (d : Int) == 0 then some (intToDec (n / (d : Int)))
+    else if (2 * n) % (d : Int) == 0 then
+      let h := (2 * n) / (d : Int)                      -- odd
+      some ((if h < 0 then [45] else []) ++ natToDec (h.natAbs / 2) ++ ascii ".5")
+    else none
   | _ => none
 
 def digitsVal (ds : Str) : Nat := ds.foldl (fun a d => a * 10 + (d.toNat - 48)) 0
@@ -466,6 +684,8 @@ def isNumericNum (nanNumeric : Bool) : Option Num → Bool
   | some _ => true
   | none => false
 
+def isAsciiStr (s : Str) : Bool := s.all (· < 128)
+
 def compareOperands (nanNumeric : Bool) (l r : Str) : Cmp :=
   let nl := parseNum l
   let nr := parseNum r
@@ -480,6 +700,8 @@ def compareOperands (nanNumeric : Bool) (l r : Str) : Cmp :=
     | _, some (.inf b) => .numeric (if b then .gt else .lt)
     | some (.fin n1 m1 e1), some (.fin n2 m2 e2) => .numeric (cmpFin n1 m1 e1 n2 m2 e2)
     | _, _ => .undetermined
+  else if !(isAsciiStr l && isAsciiStr r) then
+    .undetermined          -- strings.ToLower beyond ASCII (special casing, folding) is not modelled
   else
     .text (cmpStr (trimSpace (toLowerAscii l)) (trimSpace (toLowerAscii r)))
 
@@ -593,6 +815,8 @@ def questionTy (vars : List Str) : Ty → Outcome Val
 /-! ### The evaluator -/
 
 structure Env where
+  /-- the current year: `time.Now().Year()` in IndividualNode.IsLiving -/
+  now : Nat
   docs : List Forest
   eng : Engine
   /-- names listed by `?`: DocumentN … Document1, then the named statements -/
@@ -715,7 +939,7 @@ mutual
 /-- Expression.Evaluate -/
 def evalExpr (env : Env) (lk : Lookup) : Expr → Val → Outcome Val
   | .const s, _ => .ok (.str s)
-  | .acc q, v => evalAccessor env.docs q v
+  | .acc q, v => evalAccessor env.now env.docs q v
   | .var n, v => lk n v
   | .question, v => questionOf env.varNames v
   | .obj fs, v =>
@@ -822,8 +1046,8 @@ def evalVar (env : Env) (guard : Bool) : Nat → List Str → Lookup
       if guard && active.contains x then .error .cycle
       else evalStmt env (evalVar env guard fuel (x :: active)) s v
 
-def mkEnv (docs : List Forest) (eng : Engine) : Env :=
-  { docs := docs, eng := eng,
+def mkEnv (now : Nat) (docs : List Forest) (eng : Engine) : Env :=
+  { now := now, docs := docs, eng := eng,
     varNames := ((List.range docs.length).reverse.map docVarName) ++ (eng.map Stmt.name).filter (!·.isEmpty) }
 
 /-- The loop of `Engine.Evaluate`: every statement is evaluated on the first document, in order;
@@ -835,9 +1059,9 @@ def evalAll (env : Env) (lk : Lookup) : List Stmt → Val → Outcome Val
     evalAll env lk ss r
 
 /-- `Engine.Evaluate` without the recover -/
-def evalRaw (guard : Bool) (fuel : Nat) (docs : List Forest) (eng : Engine) : Outcome Val :=
+def evalRaw (now : Nat) (guard : Bool) (fuel : Nat) (docs : List Forest) (eng : Engine) : Outcome Val :=
   if docs.isEmpty then .panic .noDocuments else
-  let env := mkEnv docs eng
+  let env := mkEnv now docs eng
   evalAll env (evalVar env guard fuel []) eng (.doc 0)
 
 /-- the deferred recover of `Engine.Evaluate`, present iff `recovers` -/
@@ -845,12 +1069,12 @@ def recoverOutcome (recovers : Bool) : Outcome Val → Outcome Val
   | .panic p => if recovers then .error (.recovered p) else .panic p
   | o => o
 
-def evalTopWith (recovers guard : Bool) (fuel : Nat) (docs : List Forest) (eng : Engine) : Outcome Val :=
-  recoverOutcome recovers (evalRaw guard fuel docs eng)
+def evalTopWith (now : Nat) (recovers guard : Bool) (fuel : Nat) (docs : List Forest) (eng : Engine) : Outcome Val :=
+  recoverOutcome recovers (evalRaw now guard fuel docs eng)
 
 /-- `Engine.Evaluate` of the current tree: the two flags are regenerated from the code. -/
-def evalTop (fuel : Nat) (docs : List Forest) (eng : Engine) : Outcome Val :=
-  evalTopWith Generated.Query.evaluateRecovers Generated.Query.cycleGuard fuel docs eng
+def evalTop (now : Nat) (fuel : Nat) (docs : List Forest) (eng : Engine) : Outcome Val :=
+  evalTopWith now Generated.Query.evaluateRecovers Generated.Query.cycleGuard fuel docs eng
 
 /-- enough fuel for every program whose variable definitions are acyclic (and, with the cycle
     guard, for every program): one level per statement plus the document variables -/
@@ -859,7 +1083,7 @@ def defaultFuel (docs : List Forest) (eng : Engine) : Nat := eng.length + docs.l
 /-! ### JSON and the formatters -/
 
 inductive J where
-  | null | bool (b : Bool) | num (i : Int) | str (s : Str)
+  | null | bool (b : Bool) | num (i : Int) | frac (num : Int) (den : Nat) | str (s : Str)
   | arr (xs : List J) | obj (fs : List (Str × J))
 deriving Repr, Inhabited
 
@@ -883,6 +1107,7 @@ def toJ : Val → Option J
   | .str s => some (.str s)
   | .int i => some (.num i)
   | .bool b => some (.bool b)
+  | .float n d => some (.frac n d)
   | .someBool => none
   | .doc _ => none
   | .node _ n => some (nodeJ n)
@@ -917,7 +1142,7 @@ structure FmtFlags where
   csvNilPanics : Bool     -- prepareLine calls ObjectMap() on a typed nil pointer
 
 def Val.nonNillable : Val → Bool
-  | .str _ | .int _ | .bool _ | .someBool | .tag _ => true
+  | .str _ | .int _ | .bool _ | .float _ _ | .someBool | .tag _ => true
   | _ => false
 
 def Val.isNilLike : Val → Bool
